@@ -80,6 +80,7 @@ func checkC15(c *FileCase) *Violation {
 			return nil
 		}
 		a := ParseAsm(res.Out)
+		m.noteOutput(a)
 		var names []string
 		for n := range a.Labels {
 			names = append(names, n)
